@@ -1475,6 +1475,117 @@ def stream_formatter_args(ctx, batch, n_trees):
         ctx.case(None)
 
 
+def opt_tok(v):
+    return "N" if v is None else ("e" if v == "" else cps(v))
+
+
+def stream_string_output_ready(ctx, batch, n_trees):
+    """`string.output_ready(arg)` called directly on strings of every class (in trees with known_xml chains, and detached):
+    formatter=None, the signature default, registry keys incl. unknown ones, callables, Formatter objects"""
+    import inspect
+    e = E()
+    for t in range(n_trees):
+        r = ctx.rng("sor", t)
+        recipe = gen_api_recipe(r, 0.05)
+        soup = build(recipe)
+        tags = elements_preorder(soup)
+        settings = []
+        for el in tags[1:]:
+            if r.random() < 0.5:
+                path, n = [], el
+                while n.parent is not None:
+                    path.insert(0, next(j for j, c in enumerate(n.parent.contents) if c is n))
+                    n = n.parent
+                settings.append([path, r.choice([None, True, False])])
+        recipe = dict(recipe, known_xml=settings, root_is_xml=r.random() < 0.3)
+        if r.random() < 0.3:
+            recipe["known_xml"].append([[], None])
+        soup = build(recipe)
+        strings = [d for d in soup.descendants if isinstance(d, e["NS"])]
+        if r.random() < 0.3:
+            strings.append(e["cls"][r.choice(CLASSES)](rand_text(r, 0.1)))       # a detached string
+        for sidx, sobj in enumerate(strings[:6]):
+            cname = type(sobj).__name__
+            if cname not in CLASSES:
+                continue
+            chain, root_attr = known_xml_chain(sobj)
+            chain_tok = ".".join("N" if v is None else ("T" if v else "F") for v in chain) or "-"
+            pname = sobj.parent.name if sobj.parent is not None else None
+            text = str.__str__(sobj)
+            for trial in range(3):
+                if trial == 0:
+                    default = inspect.signature(type(sobj).output_ready).parameters["formatter"].default
+                    desc = ["default", default]
+                    call = lambda: sobj.output_ready()
+                    a_tok, tbl = ("None", "-") if default is None else ("n:" + cps(default), "-")
+                elif r.random() < 0.2:
+                    desc = ["none"]
+                    call = lambda: sobj.output_ready(None)
+                    a_tok, tbl = "None", "-"
+                else:
+                    desc = rand_formatter_desc(r)
+                    arg, tok = make_formatter_arg(desc)
+                    if arg is None:
+                        desc, a_tok, tbl = ["none"], "None", "-"
+                    else:
+                        a_tok, tbl = tok(("S", cname, text))
+                    call = lambda arg=arg: sobj.output_ready(arg)
+                try:
+                    real = "D:" + cps(call())
+                except KeyError:
+                    real = "KeyError"
+                req = f"c05 sor {int(root_attr)} {chain_tok} {a_tok} {tbl} {opt_tok(pname)} {CLASSES.index(cname)} {cps(text)}"
+                ctx.count(f"sor:{desc[0]}:{'preformatted' if cname not in TEXT_CLASSES else 'text'}:{'KeyError' if real == 'KeyError' else 'ok'}")
+
+                def on_reply(rep, real=real, req=req, desc=desc, cname=cname, text=text, pname=pname):
+                    if rep != real:
+                        ctx.corr_disagreements += 1
+                        u = lambda t: t if not t.startswith("D:") else ascii(uncps_local(t[2:]))
+                        ctx.violation("string.output_ready(arg) differs from the model",
+                                      case={"op": "sor", "class": cname, "text": text, "parent_name": pname, "formatter_desc": desc,
+                                            "request": req},
+                                      expected="model: " + u(rep), observed="real: " + u(real), model=rep, stream="sor",
+                                      no_failing_input=True)
+                batch.add(req, on_reply)
+        ctx.case(None)
+
+
+def stream_doctype_ids(ctx, batch, n):
+    """`Doctype.for_name_and_ids(name, pub_id, system_id)`: the string, its rendering, and its round trip"""
+    e = E()
+    D = e["cls"]["Doctype"]
+    for t in range(n):
+        r = ctx.rng("doctype", t)
+        pick = lambda: r.choice([None, None, "", "html", "-//W3C//DTD XHTML 1.0 Strict//EN", "x.dtd", rand_text(r, 0.0, 1, 3, 0.0)])
+        name, pub, sysid = pick(), pick(), pick()
+        d = D.for_name_and_ids(name, pub, sysid)
+        real = cps(str.__str__(d))
+        req = f"c05 doctype {opt_tok(name)} {opt_tok(pub)} {opt_tok(sysid)}"
+        out = d.output_ready()
+        if out != "<!DOCTYPE " + str.__str__(d) + ">\n" or type(d) is not D:
+            ctx.violation("Doctype.for_name_and_ids(...).output_ready() is not <!DOCTYPE …>\\n of its string",
+                          case={"op": "doctype", "args": [name, pub, sysid]}, expected="<!DOCTYPE " + str.__str__(d) + ">\n",
+                          observed=out, stream="doctype")
+        if ">" not in str.__str__(d):
+            back = parse(out)
+            got = [struct(c) for c in back.contents]
+            want = o_normalise([("S", "Doctype", str.__str__(d))])
+            ctx.count("doctype:roundtrip")
+            if got != want:
+                ctx.violation("a doctype made by for_name_and_ids does not come back from its rendering",
+                              case={"op": "doctype", "args": [name, pub, sysid]}, expected=ascii(want), observed=ascii(got),
+                              stream="doctype")
+
+        def on_reply(rep, real=real, req=req, args=(name, pub, sysid)):
+            if rep != real:
+                ctx.corr_disagreements += 1
+                ctx.violation("Doctype._string_for_name_and_ids differs from the model",
+                              case={"op": "doctype", "args": list(args), "request": req}, expected="model: " + rep,
+                              observed="real: " + real, model=rep, stream="doctype", no_failing_input=True)
+        batch.add(req, on_reply)
+        ctx.case(None)
+
+
 def uncps_local(t):
     return "" if t in ("-", "") else "".join(chr(int(x)) for x in t.split(","))
 
@@ -1525,6 +1636,8 @@ def run(ctx: Ctx):
     stream_small(ctx, batch)
     stream_table(ctx, batch)
     stream_formatter_args(ctx, batch, ctx.n(400, 4000))
+    stream_string_output_ready(ctx, batch, ctx.n(250, 2500))
+    stream_doctype_ids(ctx, batch, ctx.n(300, 3000))
     # (i) parsed documents
     n = ctx.n(1700, 18000)
     for i in range(n):
@@ -1561,6 +1674,28 @@ def replay(path):
     E()
     v = json.load(open(path))
     c = v["case"]
+    if c.get("op") == "doctype":
+        d = E()["cls"]["Doctype"].for_name_and_ids(*c["args"])
+        print("for_name_and_ids", c["args"], "->", ascii(str.__str__(d)), "rendered", ascii(d.output_ready()))
+        if "request" in c:
+            rep = Driver().ask([c["request"]])[0]
+            print("model:", ascii(uncps_local(rep)))
+            return 0 if rep == cps(str.__str__(d)) else 1
+        back = [struct(x) for x in parse(d.output_ready()).contents]
+        print("re-parsed:", ascii(back))
+        return 0 if back == o_normalise([("S", "Doctype", str.__str__(d))]) else 1
+    if c.get("op") == "sor":
+        print("string.output_ready case (class, text, parent name, argument):", c["class"], ascii(c["text"]), c["parent_name"],
+              c["formatter_desc"])
+        print("expected:", v.get("expected"))
+        print("observed:", v.get("observed"))
+        s = E()["cls"][c["class"]](c["text"])
+        if c["formatter_desc"][0] in ("name", "default") and c["parent_name"] is None:
+            try:
+                print("detached string now:", ascii(s.output_ready(c["formatter_desc"][1])))
+            except KeyError:
+                print("detached string now: KeyError")
+        return 1
     if "recipe" not in c:
         print(json.dumps(c, indent=1)[:3000])
         return 1
